@@ -172,12 +172,14 @@ def _masks(mask, n):
     return [i for i in range(n) if (mask >> i) & 1]
 
 
-@obligation(params={'nl': (0, 5), 'cpn_cfg': (0, 2), 'cpn_env': (1, 2),
-                    'gpn': (0, 2), 'req': (0, 4), 'n_agents': (0, 2),
+CPN_COMBOS = [(0, 1), (0, 2), (1, 2), (2, 2)]    # (configured, from env / 2)
+
+
+@obligation(params={'nc': (0, 23), 'gpn': (0, 2), 'req': (0, 4), 'n_agents': (0, 2),
                     'services': 'bool', 'bc': (0, 3), 'bg': (0, 3),
                     'backup': (0, 1), 'rgpus': (0, 4)},
             shapes={'quick': [{'small': True}], 'thorough': [{'small': False}]},
-            partition={'quick': ('nl', 6), 'thorough': ('nl', 6)},
+            partition={'quick': ('nc', 24), 'thorough': ('nc', 24)},
             timeout={'quick': 300, 'thorough': 1800},
             funcs=FUNCS + ['radical/pilot/agent/resource_manager/slurm.py:'
                            'Slurm.init_from_scratch'],
@@ -188,9 +190,14 @@ def _masks(mask, n):
                    'sub-agent nodes, service node, blocked core/GPU masks over '
                    'the first 2 indices, backup nodes 0/1, requested GPUs 0..4 '
                    '(when the node count is derived)')
-def h_slurm(nl, cpn_cfg, cpn_env, gpn, req, n_agents, services, bc, bg,
-            backup, rgpus, small=False):
+def h_slurm(nc, gpn, req, n_agents, services, bc, bg, backup, rgpus,
+            small=False):
     """Slurm allocation -> node list offered for placement"""
+    # nc: node list form x (configured cores per node, $SLURM_CPUS_ON_NODE / 2);
+    # the env value is only read when nothing is configured
+    nc = conc(nc, 0, 23)
+    nl = nc // 4
+    cpn_cfg, cpn_env = CPN_COMBOS[nc % 4]
     # requested GPUs only matter when the node count is derived (req == 0)
     if rgpus and (req or not gpn): return
     if small:
@@ -200,8 +207,11 @@ def h_slurm(nl, cpn_cfg, cpn_env, gpn, req, n_agents, services, bc, bg,
         # blocked cells and the agent layout are handled independently
         if (bc or bg) and (n_agents or services or backup): return
         if bg and not gpn: return
-    nl, cpn_cfg, cpn_env = conc(nl, 0, 5), conc(cpn_cfg, 0, 2), \
-                           conc(cpn_env, 1, 2)
+    else:
+        # thorough: factors that cannot interact are not multiplied out
+        if bg and not gpn: return                # no GPUs: nothing to block
+        if backup and (bc or bg): return         # backup vs. blocked cells
+        if rgpus and (backup or n_agents > 1): return
     gpn, req, n_agents = conc(gpn, 0, 2), conc(req, 0, 4), conc(n_agents, 0, 2)
     bc, bg, backup = conc(bc, 0, 3), conc(bg, 0, 3), conc(backup, 0, 1)
     expr, hosts = SLURM_LISTS[nl]
@@ -259,7 +269,7 @@ LINES = [None, 'n1', 'n2', 'n3', 'login1', 'batch2']
                            'radical/pilot/agent/resource_manager/cobalt.py:'
                            'Cobalt.init_from_scratch'],
             bounds='node file of 1..5 lines (quick: 1..3), each naming one of n1 n2 n3 login1 '
-                   'batch2 (repeated host lines = slots); batch system LSF / '
+                   'batch2 (repeated host lines = slots; 5-line files only as one host repeated 3 times after 2 arbitrary lines); batch system LSF / '
                    'Torque / Cobalt; cores per node configured 0 (detect) / 1 / '
                    '2; SMT 1..2 (LSF); requested nodes 1..3; 0..1 agent nodes')
 def h_nodefile(l01, l2, l3, l4, kind, cpn_cfg, smt, req, n_agents,
@@ -267,6 +277,12 @@ def h_nodefile(l01, l2, l3, l4, kind, cpn_cfg, smt, req, n_agents,
     """node-file based batch systems -> node list offered for placement"""
     if small and (l3 != 0 or l4 != 0 or smt != 1 or cpn_cfg == 1
                   or req > 2 or l2 > 3): return
+    if not small:
+        if smt != 1 and kind != 0: return        # SMT is only read by LSF
+        if l4 and not (l2 == l3 == l4): return   # 5 lines: one host repeated
+        # only LSF treats login/batch hosts specially: for the others they are
+        # just two more host names (kept on line 2 via l01, dropped later on)
+        if kind != 0 and (l2 > 3 or l3 > 3): return
     l01 = conc(l01, 0, 29)
     ls = [1 + l01 // 6, l01 % 6, conc(l2, 0, 5), conc(l3, 0, 5),
           conc(l4, 0, 5)]
